@@ -9,14 +9,16 @@ from ..common import log
 
 PUNCTS = b",<>:|=-&.!"
 GROUPS = b"([{"
-JOINT_PAIRS = [(":", ":"), ("|", "|"), ("=", "="), ("-", ">"), (">", ">")]
 K_IDENT, K_PUNCT, K_LIT, K_GROUP = 0, 1, 2, 3
 # token trees per tier: C16 = oracle first, scanner on accepted lists (mode 1); C18 = scanner alone on every sequence (mode 2)
 MODE = {"C16": 1, "C18": 2}
 ENVN = lambda k, d: int(os.environ.get(k, d))
-VALIDATE = {"quick": 4, "thorough": 5}
+# validator runs per tier: (token trees, what, alphabet): `both` = stubs on every spacing + oracle on the C16 domain; `oracle` = oracle only (pruned to the domain)
+VALIDATE = {"C16": {"quick": [("5", "both"), ("6", "oracle"), ("7", "oracle", "reduced")], "thorough": [("6", "both"), ("7", "oracle"), ("9", "oracle", "reduced")]},
+            "C18": {"quick": [("5", "shim")], "thorough": [("6", "shim")]}}
 ALPHABET_TEXT = ("identifier `a`; keyword `as`; literal `1`; groups `(a, a)` `[a, a]` `{ a }` (opaque); punctuation , < > : | = - & . ! "
-                 "each Alone, and Joint exactly as the first half of :: || == -> >>")
+                 "each with Alone and with Joint spacing (so every multi-character operator they form: :: || && == != <= >= << >> <<= >>= -= &= |= "
+                 "-> => .. ... ..=); lexer sequences (Joint only directly before another punct) in which `:` occurs only as `::`")
 
 FAIL_TEXT = {
     1: "Rust's grammar accepts the argument list, the scanner fails",
@@ -44,16 +46,18 @@ def render(tts):
     return "".join(out).strip()
 
 
-FULL = {"ident": True, "as": True, "lit": True, "groups": GROUPS, "puncts": PUNCTS, "pairs": JOINT_PAIRS,
-        "text": ALPHABET_TEXT}
+FULL = {"ident": True, "as": True, "lit": True, "groups": GROUPS, "puncts": PUNCTS, "text": ALPHABET_TEXT}
 # the tokens the scanner itself distinguishes (identifier, `,`, `<`, `>`, `::`, `|`) plus what makes them ambiguous in Rust's grammar
 # (`as` types, `=` aliases, a group as the catch-all operand): every other token is "some other token tree" to the scanner
-REDUCED = {"ident": True, "as": True, "lit": False, "groups": b"(", "puncts": b",<>:|=", "pairs": [(":", ":")],
-           "text": "identifier `a`; keyword `as`; group `(a, a)`; punctuation , < > | = (Alone) and ::"}
+REDUCED = {"ident": True, "as": True, "lit": False, "groups": b"(", "puncts": b",<>:|=",
+           "text": "identifier `a`; keyword `as`; group `(a, a)`; punctuation , < > : | = each with Alone and with Joint spacing; lexer sequences, `:` only as `::`"}
+# totality quantifies over token streams, not over source text: any spacing anywhere, and the `'` punct of a lifetime
+ANY = dict(FULL, puncts=PUNCTS + b"'", text="identifier `a`; keyword `as`; literal `1`; groups `(a, a)` `[a, a]` `{ a }` (opaque); punctuation , < > : | = - & . ! ' "
+                                             "each with Alone and with Joint spacing, in any order (no lexer constraint: token streams built by other macros)")
 
 
-def valid_constraint(z3, bs, n, al=FULL):
-    """bs: 4*n symbolic bytes (kind, ch, joint, keyword per token tree) -> the z3 constraint `valid_seq` of tokens.rs,
+def valid_constraint(z3, bs, n, al=FULL, domain="lexer"):
+    """bs: 4*n symbolic bytes (kind, ch, joint, keyword per token tree) -> the z3 constraint `lexer_seq` / `any_seq` of tokens.rs,
     restricted to the sub-alphabet `al`"""
     cs = []
     for i in range(n):
@@ -69,24 +73,86 @@ def valid_constraint(z3, bs, n, al=FULL):
             alts.append(z3.And(k == K_GROUP, z3.Or(*[c == g for g in al["groups"]]), j == 0, w == 0))
         alts.append(z3.And(is_p, z3.Or(*[c == q for q in al["puncts"]]), w == 0, z3.ULE(j, 1)))
         cs.append(z3.Or(*alts))
-        if i + 1 < n:
-            k2, c2, j2, _ = bs[4 * i + 4:4 * i + 8]
-            cs.append(z3.Implies(z3.And(is_p, j == 1), z3.And(k2 == K_PUNCT, j2 == 0,
-                                                                z3.Or(*[z3.And(c == ord(x), c2 == ord(y)) for x, y in al["pairs"]]))))
-        else:
-            cs.append(z3.Not(z3.And(is_p, j == 1)))
+        if domain == "lexer":
+            # Joint = written directly before another punctuation character
+            if i + 1 < n:
+                cs.append(z3.Implies(z3.And(is_p, j == 1), bs[4 * i + 4] == K_PUNCT))
+            else:
+                cs.append(z3.Not(z3.And(is_p, j == 1)))
+    if domain == "lexer":
+        # the C16 domain (scan_oracle.rs::c16_seq): `:` only as the two halves of `::`
+        first_prev = False
+        for i in range(n):
+            k, c, j, w = bs[4 * i:4 * i + 4]
+            colon = z3.And(k == K_PUNCT, c == ord(":"))
+            first = z3.And(colon, z3.Not(first_prev)) if first_prev is not False else colon
+            if i + 1 < n:
+                cs.append(z3.Implies(first, z3.And(j == 1, bs[4 * i + 4] == K_PUNCT, bs[4 * i + 5] == ord(":"))))
+            else:
+                cs.append(z3.Not(first))
+            first_prev = first
     return z3.And(*cs) if cs else None
 
 
+def describe_tts(tts):
+    """the validator's replay argument"""
+    return " ".join("%d,%d,%d,%d" % tuple(t) for t in tts)
+
+
+# Templates: the argument shapes the property names, as fixed token trees with HOLES (`?` = any one token tree of the full alphabet)
+# and every spacing symbolic: they reach 8-14 token trees, which length-bounded passes cannot.  `a` identifier, `s` = `as`, `g` = `(a, a)`.
+TEMPLATES = [
+    # generic argument lists: `f::<A, B>()`, method turbofish, `<A as T<B, C>>::X`, `x as M<K, V>` (the last is a known finding)
+    "a :: < ? , a > g", "a :: < ? ? , a > g", "a :: < a , ? > g", "a :: < a , ? ? > g", "a :: < ? , ? > g",
+    "a . a :: < ? , a > g", "a . a :: < ? ? , a > g", "a . a :: < a , ? ? > g",
+    "< a s a < ? , a > > :: a", "< a s a < ? ? , a > > :: a", "< a s a < a , ? ? > > :: a", "< a < ? , a > > :: a", "< ? s a < a , a > > :: a",
+    "a s a < ? , a >", "a s a :: < ? , a >", "a s a < a , ? >",
+    # closure parameter lists do not split
+    "| a , ? | ? a", "| a , ? | ? ? a", "| ? , a | a , a", "a , | a , ? | a",
+    # followed / preceded by other arguments, behind an alias
+    "a :: < ? , a > g , a", "a , a :: < ? , a > g", "a = a :: < ? , a > g", "a = a , a :: < ? , a > g , ?",
+    "a :: < ? , a > g , a = a", "< a s a < ? , a > > :: a , a",
+    # comparisons / shifts using `<` `>`: these DO split
+    "a < ? , a > ? a", "a < ? ? , a > a", "a < a , a :: < a , ? > g",
+    # nesting
+    "a :: < a :: < ? , a > , a > g", "a :: < < a s a < ? , a > > :: a , a > g", "a :: < a , a > :: a :: < ? , a > g",
+]
+TEMPLATES_THOROUGH = [
+    "a :: < ? ? , ? > g", "a :: < ? ? , ? ? > g", "a :: < ? ? ? , a > g", "a . a :: < ? ? , ? > g", "a . ? :: < ? , a > g",
+    "< a s a < ? ? , ? > > :: a", "< ? s a < ? , a > > :: a , a", "< ? ? s a < ? , a > > :: a", "< a s a < a , a > > :: a ? ? ?",
+    "a :: < ? , a > g , ? ?", "? ? , a :: < ? , a > g", "a :: < ? , a > g ? ? ?", "? ? ? a :: < ? , a > g",
+    "| a , ? | ? ? ? a", "| ? ? , a | ? a", "a ? | a , a | a , a", "a < ? ? , a > ? ? a", "a ? ? a , a ? ? a",
+    "a :: < ? , ? > :: a :: < ? , a >", "a = ? ? ? , a = ? ? ?", "a s ? ? ? , a", "a s a < ? , a > , a s a < a , ? >",
+]
+
+
+def template_fixed(t):
+    """-> (n, [(pos, kind, ch, keyword)] for the fixed token trees; `::` is two puncts, the first Joint)"""
+    fixed, joints, pos = [], [], 0
+    for w in t.split():
+        if w == "?":
+            pos += 1
+        elif w == "a":
+            fixed.append((pos, K_IDENT, ord("a"), 0)); pos += 1
+        elif w == "s":
+            fixed.append((pos, K_IDENT, ord("s"), 1)); pos += 1
+        elif w == "g":
+            fixed.append((pos, K_GROUP, ord("("), 0)); pos += 1
+        else:
+            for ch in w:
+                fixed.append((pos, K_PUNCT, ord(ch), 0)); pos += 1
+    return pos, fixed
+
+
 PASSES = {
-    "C16": {"quick": [("full", FULL, 0, ENVN("VERIF_SCAN_QUICK_N", 5)), ("reduced", REDUCED, ENVN("VERIF_SCAN_QUICK_N", 5) + 1, ENVN("VERIF_SCAN_QUICK_R", 7))],
-            "thorough": [("full", FULL, 0, ENVN("VERIF_SCAN_THOROUGH_N", 6)), ("reduced", REDUCED, ENVN("VERIF_SCAN_THOROUGH_N", 6) + 1, ENVN("VERIF_SCAN_THOROUGH_R", 9))]},
-    "C18": {"quick": [("full", FULL, 0, ENVN("VERIF_SCAN18_QUICK_N", 6))],
-            "thorough": [("full", FULL, 0, ENVN("VERIF_SCAN18_THOROUGH_N", 8))]},
+    "C16": {"quick": [("full", FULL, 0, ENVN("VERIF_SCAN_QUICK_N", 4)), ("reduced", REDUCED, ENVN("VERIF_SCAN_QUICK_N", 4) + 1, ENVN("VERIF_SCAN_QUICK_R", 6))],
+            "thorough": [("full", FULL, 0, ENVN("VERIF_SCAN_THOROUGH_N", 6)), ("reduced", REDUCED, ENVN("VERIF_SCAN_THOROUGH_N", 6) + 1, ENVN("VERIF_SCAN_THOROUGH_R", 8))]},
+    "C18": {"quick": [("any", ANY, 0, ENVN("VERIF_SCAN18_QUICK_N", 5))],
+            "thorough": [("any", ANY, 0, ENVN("VERIF_SCAN18_THOROUGH_N", 7))]},
 }
 
 
-def explore(tier, prop, passes=None):
+def explore(tier, prop, passes=None, templates=None):
     import multiprocessing
     import z3
     from ..llsym import build, driver, native
@@ -103,27 +169,39 @@ def explore(tier, prop, passes=None):
         res["inconclusive"].append("scanner wrapper / validator does not build: " + str(e)[-1500:])
         return res
     # environment stubs and oracle are validated natively on every run (stubs depend on the working-tree scanner)
-    tv = time.time()
-    p = subprocess.run([v, str(VALIDATE[tier]), "both"], capture_output=True, text=True)
-    res["validator"] = {"max_tokens": VALIDATE[tier], "summary": p.stdout.strip().split("\n")[-1] if p.stdout.strip() else "", "exit": p.returncode,
-                        "wall_s": round(time.time() - tv, 1)}
-    if p.returncode != 0:
-        res["inconclusive"].append("validator: the environment stubs or the grammar oracle disagree with real syn: " + p.stdout[-800:])
+    res["validator"] = []
+    for args in VALIDATE[prop][tier]:
+        tv = time.time()
+        p = subprocess.run([v] + list(args), capture_output=True, text=True)
+        res["validator"].append({"args": list(args), "summary": p.stdout.strip().split("\n")[-1] if p.stdout.strip() else "", "exit": p.returncode,
+                                 "wall_s": round(time.time() - tv, 1)})
+        log("[%s] validator %s: %s (%.1fs)" % (prop, " ".join(args), res["validator"][-1]["summary"], time.time() - tv))
+        if p.returncode != 0:
+            res["inconclusive"].append("validator: the environment stubs or the grammar oracle disagree with real syn: " + p.stdout[-800:])
     mod = E.Module(b["ll"])
     mode = MODE[prop]
     if passes is None:
         passes = PASSES[prop][tier]
     res["passes"] = [{"name": nm, "alphabet": al["text"], "token_trees": "%d..=%d" % (lo, hi)} for nm, al, lo, hi in passes]
+    jobs = [(nm, al, n, None) for nm, al, lo, hi in passes for n in range(lo, hi + 1)]
+    if templates is None:
+        templates = (TEMPLATES + (TEMPLATES_THOROUGH if tier == "thorough" else [])) if prop == "C16" else []
+    for t in templates:
+        n, fixed = template_fixed(t)
+        jobs.append(("template `%s`" % t, FULL, n, fixed))
+    if templates:
+        res["passes"].append({"name": "templates", "alphabet": FULL["text"], "templates": templates,
+                              "meaning": "`?` = any one token tree of the alphabet; `a` identifier, `s` keyword `as`, `g` group `(a, a)`; all spacing symbolic"})
     all_recs, total = [], {}
-    for pname, al, n in [(nm, al, n) for nm, al, lo, hi in passes for n in range(lo, hi + 1)]:
-        outdir = os.path.join(scratch, "paths-%s-%d" % (pname, n))
+    for ji, (pname, al, n, fixed) in enumerate(jobs):
+        outdir = os.path.join(scratch, "paths-%d-%d" % (ji, n))
         os.makedirs(outdir)
         ex = driver.ParallelExec(mod, outdir, multiprocessing.Semaphore(common.NCPU - 1), max_steps=60000 * (n + 2))
         bs = [z3.BitVec("t%d_%s" % (i // 4, "kcjw"[i % 4]), 8) for i in range(4 * n)]
 
         digest_base = [None]
 
-        def setup(ex, st, n=n, bs=bs, digest_base=digest_base, al=al):
+        def setup(ex, st, n=n, bs=bs, digest_base=digest_base, al=al, fixed=fixed):
             buf = st.alloc(max(4 * n, 1), "tokens")
             for i in range(4 * n):
                 buf.data[i] = bs[i]
@@ -138,7 +216,9 @@ def explore(tier, prop, passes=None):
             fr.regs[names[2]] = dg.base
             fr.regs[names[3]] = mode
             if n:
-                st.pc.append(valid_constraint(z3, bs, n, al))
+                st.pc.append(valid_constraint(z3, bs, n, al, "any" if mode == 2 else "lexer"))
+                if fixed:
+                    st.pc.append(z3.And(*[z3.And(bs[4 * q] == k, bs[4 * q + 1] == c, bs[4 * q + 3] == w) for q, k, c, w in fixed]))
 
         def describe(kind, detail, st, m, bs=bs, n=n, digest_base=digest_base, pname=pname):
             inp = [m.eval(x, model_completion=True).as_long() for x in bs] if m is not None else None
